@@ -111,6 +111,34 @@ theorem operator_objects_agree (tr : Tr α) (o : Char) (f a b lit out : Str) (ca
    opScalRev_denote tr o a lit out ca s ga hs hn hr hlk, fun hf => opVoidFn_denote tr f a out ca ga hf hn hr hlk,
    fun hf hg => opAgg_denote tr f a ca ga hf hg⟩
 
+/-- **T2' (parser, character level)**: `utils.makeRPN` as modelled on the *string* (the definition the
+driver runs and that is compared with the real `makeRPN` on every run: nine groups scanned in order,
+right-to-left scan with the depth counter, `strip`, outer-parenthesis stripping, fuel = length of the
+string) returns the postfix form of every printed tree whose atoms are non-empty and free of
+parentheses, operator characters and white space. -/
+theorem makeRPN_chars_show (e : E) (hwf : Rpn.WF pyLvl 9 e) (hok : AtomsOK e) :
+    makeRPN (flat (shw pyLvl 9 e)) = .ok ((Rpn.post e).map String.toList) :=
+  makeRPN_flat_shw e hwf hok
+
+/-- **T3' (string → value)**: from the rewritten string of the statement `#output=e` on
+(`makeRPN` on characters, `__double_prime`, the stack machine, fetching `#output`, the purge),
+`operate` returns the tree semantics of `e` at every observation and leaves the track exactly as it was. -/
+theorem operate_string_value (tr : Tr α) (e : Ex) (v : Val α)
+    (hw : WFx e) (hp : PlainNames e) (hq : NoQuote e)
+    (hn : tr.n ≠ 0) (hnt : NoTemps tr) (hl : NoLitNames tr) (hd : denoteM tr e = .ok v) :
+    operateRewritten tr (stmtString outputName e) false = (.ok (some (v.toVec tr.n)), tr) := by
+  have hgood : ∀ t ∈ outputName :: (Expr.post e ++ [['=']]), GoodTok t := by
+    intro t ht
+    simp only [List.mem_cons, List.mem_append, List.mem_nil_iff, or_false] at ht
+    rcases ht with rfl | ht | rfl
+    · exact ⟨'t', rfl, by decide⟩
+    · exact goodTok_post e hq hw t ht
+    · exact ⟨'=', rfl, by decide⟩
+  have h := operateTokens_value tr e v hw hn hnt hl hd
+  simp only [operateRewritten, evaluateRewritten, makeRPN_stmtString outputName e hw hp atomOK_output,
+    doublePrime_id _ hgood]
+  exact h
+
 /-! ## non-vacuity -/
 
 /-- a toy exact scalar (integers; `pow` by repeated multiplication, no NaN) for the examples -/
@@ -149,6 +177,12 @@ example : denoteM trEx eEx = .ok (.vec [3, -3, 15]) := by rfl
 /-- the parser on the printed statement gives the postfix form the evaluator runs -/
 example : (rpn pyLvl 9 20 (shw pyLvl 9 (stmt outputName eEx))).map String.toList
     = outputName :: (Expr.post eEx ++ [['=']]) := by decide +kernel
+example : PlainNames eEx ∧ NoQuote eEx := by
+  simp only [eEx, PlainNames, NoQuote, AtomOK, GoodTok, String.toList_ofList]
+  decide
+/-- the character-level parser on the string of the statement -/
+example : stmtString outputName eEx = "#output=(a+b)*2-SUM@(a)".toList := by decide +kernel
+example : makeRPN (stmtString outputName eEx) = .ok (outputName :: (Expr.post eEx ++ [['=']])) := by rfl
 /-- left associativity and precedence with the real table: `a-b-c*d` -/
 example : rpn pyLvl 9 20 (shw pyLvl 9 (.bin '-' (.bin '-' (.atom "a") (.atom "b")) (.bin '*' (.atom "c") (.atom "d"))))
     = ["a", "b", "-", "c", "d", "*", "-"] := by decide
